@@ -5,7 +5,7 @@ import itertools
 
 import numpy as np
 
-from vf import gen
+from vf import gen, plumbing
 
 PID = "C12"
 ANCHORS = ["pyoma2.functions.ssi:build_hank", "pyoma2.algorithms.ssi:SSIdat.run"]
@@ -34,7 +34,17 @@ def ndats(br, tier):
     return sorted({lo, lo + 1, min(40, lo + 7), 24 if 24 >= lo else lo})
 
 
+PLUMB_CLASSES = ['SSIcov', 'SSIdat']
+PLUMB_FIELDS = ['H']
+REQUIRED_MONITORS = list(REQUIRED_MONITORS) + [f"plumbing:{s_}" for s_ in plumbing.SCENARIOS]
+REQUIRED_STATES = list(REQUIRED_STATES) + [f"plumbing scenario {s_}" for s_ in plumbing.SCENARIOS]
+
+
 def cases(tier, seed):
+    return _cases(tier, seed) + plumbing.cases(len(plumbing.SCENARIOS) * len(PLUMB_CLASSES) * (1 if tier == "quick" else 6), PLUMB_CLASSES)
+
+
+def _cases(tier, seed):
     out = []
     for l in range(1, 5):
         for nr in range(1, l + 1):
@@ -320,6 +330,8 @@ def run_classes(ctx, rng):
 
 
 def run_case(ctx, case):
+    if case["cls"] == "plumbing":
+        return plumbing.run_case(ctx, case, gen.rng_of(case), PLUMB_FIELDS)
     if case["cls"] == "impulse_basis":
         run_basis(ctx, case)
     elif case["cls"] == "random_definition":
